@@ -403,7 +403,7 @@ let shape_main verbose =
            let (me, mx') = m_extract_next !fk !fv !ps !sep entry_eqb p !mx d in
            mx := mx';
            if compare e me <> 0 then print_endline "ERASE! extract step (ScanTree.v yields another entry)";
-           (* cross check with the specification iterator (RangeMutP.v proves it for the logical tree) *)
+           (* cross check with the specification iterator (ScanP.v / ScanBackP.v prove it for the logical tree when only one end is consumed) *)
            let (e', s') = (match d with DNext -> ext_next p !spec | DPrev -> ext_next_back p !spec) in
            spec := s';
            if compare e e' <> 0 then print_endline "SPEC! extract step";
